@@ -20,5 +20,11 @@ def register(prop, level=None, claim=None):
     return deco
 
 
+BROKEN = {}
 for _m in sorted(m.name for m in pkgutil.iter_modules(__path__)):
-    importlib.import_module("engines." + _m)
+    try:
+        importlib.import_module("engines." + _m)
+    except Exception as _ex:  # one broken family must not take the others down
+        import sys
+        BROKEN[_m] = repr(_ex)
+        print("engines: cannot import %s: %r" % (_m, _ex), file=sys.stderr)
